@@ -862,6 +862,7 @@ def jacobian_case(name, rng, tier):
     J = dense_from_blocks(comp_jacobian(prob, outs, innames), outs, innames, osz, isz)
     # finite differences w.r.t. the differentiated inputs only (extra inputs are held fixed)
     Jfd = fd_jacobian(c["factory"], allin, outs)
+    Jfd2 = fd_jacobian(c["factory"], allin, outs, rel=2.3e-5)
     cols = []
     off = 0
     for k in allin:
@@ -869,9 +870,9 @@ def jacobian_case(name, rng, tier):
         if k in inputs:
             cols += list(range(off, off + n))
         off += n
-    Jfd = Jfd[:, cols]
+    Jfd = Jfd[:, cols]; Jfd2 = Jfd2[:, cols]
     fv = flat_cat(real, outs); xv = flat_cat(inputs, innames)
-    ok, msg = core.close_jac(J, Jfd, rtol=5e-4, fvals=fv, xvals=xv, noise=1e-6)
+    ok, msg = core.close_jac(J, Jfd, rtol=5e-4, fvals=fv, xvals=xv, noise=1e-6, Jb2=Jfd2)
     if ok:
         return []
     return [_fail("reported derivatives differ from finite differences of the component's own compute()", msg, "equal",
